@@ -6,7 +6,8 @@ PREFIX=$1; ROUND=$2; BASE=$3; ID=$4; NAME=$5; CRATE=$6; NEEDS=$7; MISSED=$8; shi
 D=/verif/seeded/$PREFIX-$ID-$NAME
 mkdir -p $D
 cp $BASE/$ID/out/patch.diff $BASE/$ID/out/demo.rs $BASE/$ID/out/notes.md $D/ 2>/dev/null
-OUT=$(cd /verif && tools/try_seed.sh $BASE/$ID/out $CRATE "$@" 2>&1)
+# SEED_EVAL_LOG=<file>: file the output of an evaluation already made with tools/try_seed.sh instead of running it again.
+if [ -n "${SEED_EVAL_LOG:-}" ]; then OUT=$(cat "$SEED_EVAL_LOG"); else OUT=$(cd /verif && tools/try_seed.sh $BASE/$ID/out $CRATE "$@" 2>&1); fi
 echo "$OUT" | grep -E "check|demo|tests"
 echo "$OUT" > $D/evaluation.log
 caught=(); replays=()
